@@ -183,3 +183,15 @@ prop(
     floors=[dict(stage="model", key="histories", min=1_000_000), dict(stage="model", key="evictions_observed", min=100_000), dict(stage="model", key="reentrant_calls", min=10_000)],
     assumptions=["a to-be-replaced entry may or may not be counted as occupying room (both accountings are accepted: see DESIGN section 3, C09)", "keys and values handed to the cache are never mutated afterwards (the documented aliasing contract)"],
 )
+
+prop(
+    "C10",
+    "race detector + offline linearizability checking of recorded histories: thousands of short concurrent histories (2-8 goroutines, 1-3 keys, 4-10 operations each, start barrier, yields in the harness and inside OnDelete - the cache's one "
+    "unlocked window) run on fresh caches of 9 configurations under `go test -race`; every client call is stamped from one atomic counter before the call and after the return, values are unique and checksummed (key|worker|seq|crc) so a Get "
+    "names the Set it read and a torn or foreign value is detected at once; evictions become Evict(value) operations from the OnDelete recorder with interval [earliest in-flight Set, callback entry]; each per-key history (Clear copied into "
+    "every partition) is checked by porcupine against a presence+value register model (nondeterministic for bounded caches without LRU, where a Set may be refused). Every Stats snapshot is checked against the bounds, the hook's structural "
+    "invariants and Hit/Miss at quiescence; long stress runs add race/bounds/integrity observation without history. A history is one case; non-trivial histories are those with overlapping operations on a key (counted)",
+    [st("lin", "c10", "TestLinearizable", race=True, timeout_q=900, timeout_t=3000), st("stress", "c10", "TestStress", race=True, timeout_q=900, timeout_t=3000)],
+    floors=[dict(stage="lin", key="histories_with_overlapping_ops_on_a_key", min=10000), dict(stage="lin", key="evictions_observed", min=10000), dict(stage="lin", key="porcupine_ok", min=14000), dict(stage="stress", key="stress_operations", min=500_000)],
+    assumptions=["the Go scheduler is not controllable: reach comes from many short histories, barriers, yields and the race detector's happens-before analysis", "Clear is checked per key (copied into every partition), which is sound but weaker than global atomicity"],
+)
